@@ -301,7 +301,9 @@ fn resolve_once(
             {
                 let size = encodings[0].1.size.unwrap();
 
-                cur_position += size;
+                // Saturate like the enclosing resolution does: a cursor
+                // beyond the supported range is reported when output is built
+                cur_position = cur_position.saturating_add(size);
 
                 result = result.concat(
                     (result.size.unwrap(), 0),
